@@ -87,3 +87,12 @@ pub open spec fn Redeemers_as_map(x: Redeemers) -> bool { match x.serialization_
 pub open spec fn Redeemers_enc(x: Redeemers) -> Seq<Tok> {
     if Redeemers_as_map(x) { seq![Tok::Map(x.redeemers@.len() as u64)] + red_items(x.redeemers@, true) } else { seq![Tok::Arr(x.redeemers@.len() as u64)] + red_items(x.redeemers@, false) }
 }
+// vkeywitness / bootstrap_witness sets of the witness set: nonempty_set<a> = #6.258([+ a]) / [+ a]; the tag is written unless the
+// collection was decoded without one and is told to keep its original form
+pub open spec fn wit_tagged(force: bool, t: CborSetType) -> bool { if force { t is Tagged } else { true } }
+pub open spec fn Vkeywitnesses_enc(x: Vkeywitnesses) -> Seq<Tok> {
+    (if wit_tagged(x.force_original_cbor_set_type, x.cbor_set_type) { seq![Tok::Tag(258)] } else { Seq::empty() }) + seq![Tok::Arr(x.witnesses@.len() as u64)] + flat(x.witnesses@)
+}
+pub open spec fn BootstrapWitnesses_enc(x: BootstrapWitnesses) -> Seq<Tok> {
+    (if wit_tagged(x.force_original_cbor_set_type, x.cbor_set_type) { seq![Tok::Tag(258)] } else { Seq::empty() }) + seq![Tok::Arr(x.witnesses@.len() as u64)] + flat(x.witnesses@)
+}
